@@ -21,6 +21,9 @@ CONFIGS = {
     "pthread-long": (["-D__PTHREAD", "-D_LONGINT"], []),
     "openmp-long": (["-D__OPENMP", "-D_LONGINT"], ["-fopenmp"]),
     "pthread-noblas": (["-D__PTHREAD"], []),
+    "openmp-noblas": (["-D__OPENMP"], ["-fopenmp"]),
+    "pthread-long-noblas": (["-D__PTHREAD", "-D_LONGINT"], []),
+    "openmp-long-noblas": (["-D__OPENMP", "-D_LONGINT"], ["-fopenmp"]),
 }
 
 
